@@ -44,7 +44,7 @@ def run(prog: Program, ctx: Ctx) -> None:  # noqa: PLR0912,PLR0915
                    "the alias is added iff it is not a self-alias and (the name is new or overwrite)")
     from sa.importrules import wildcard_table
 
-    wildcard_table(prog, ctx, "R2")
+    wildcard_table(prog, ctx, "R2", importers=True)
 
     # ------------------------------------------------------------------ R3
     ctx.rule("R3", "every public attribute / property / method of Object, Module, Class, Function, Attribute exists on Alias; each proxy reads the "
